@@ -426,3 +426,108 @@ func init() {
 		return nil
 	}})
 }
+
+// ---------------------------------------------------------------------------
+// C19 (H) HOTKEY command: traffic through the real proxy stack, collection ticks on the virtual clock, then
+// the HOTKEY command; the report is parsed from the reply.
+// oracle    at most 50 keys (the collector's capacity), no key twice, non-increasing counters, only keys that
+//           were accessed
+// ---------------------------------------------------------------------------
+
+func c19hotkeyCommand(env sched.Env) *sched.Report {
+	rep := &sched.Report{Outcomes: map[string]int64{}, Complete: true}
+	sigs := map[string]bool{}
+	plans := [][]int{{1}, {3, 1}, {1, 3}, {5, 5, 1}, {2, 9, 4, 1}, {60}, {0}}
+	for pi, plan := range plans {
+		if pi%env.NShards != env.Shard {
+			continue
+		}
+		var sig, detail string
+		body := func() {
+			cl := cluster.New(2, 0, 2)
+			s := vfStartStack(cl, vfSvcConfig(0, nil, 0))
+			c := s.NewClient("c0")
+			accessed := map[string]bool{}
+			for round, n := range plan {
+				if n == 60 {
+					for i := 0; i < 60; i++ { // more distinct keys than the capacity
+						k := fmt.Sprintf("key%02d", i)
+						c.Do("SET", k, "v")
+						accessed[k] = true
+					}
+				}
+				for i := 0; i < n && n != 60; i++ {
+					for j := 0; j <= i; j++ {
+						k := fmt.Sprintf("k%d", i)
+						c.Do("GET", k)
+						accessed[k] = true
+					}
+				}
+				sched.WaitQuiescent()
+				sched.AdvanceTime(int64(10*1e9) + 1) // the collect ticker
+				sched.WaitQuiescent()
+				if round%2 == 1 {
+					sched.AdvanceTime(int64(60*1e9) + 1) // the evict ticker
+					sched.WaitQuiescent()
+				}
+				got, err := c.Do("HOTKEY")
+				if err != nil || got.Kind != '$' {
+					sig, detail = "hotkey-reply-shape", fmt.Sprintf("%s %v", got, err)
+					return
+				}
+				lines := strings.Split(string(got.Str), "\n")
+				seen := map[string]bool{}
+				last := int64(1 << 62)
+				if len(lines)-1 > 50 {
+					sig, detail = "hotkey-report-longer-than-capacity", fmt.Sprintf("%d keys", len(lines)-1)
+					return
+				}
+				for _, l := range lines[1:] {
+					var cnt int64
+					var name string
+					if _, err := fmt.Sscanf(l, "counter: %d  keyname: %s", &cnt, &name); err != nil {
+						sig, detail = "hotkey-report-unparseable", l
+						return
+					}
+					if seen[name] {
+						sig, detail = "hotkey-report-lists-key-twice", name
+						return
+					}
+					seen[name] = true
+					if !accessed[name] {
+						sig, detail = "hotkey-report-lists-key-never-accessed", name
+						return
+					}
+					if cnt > last {
+						sig, detail = "hotkey-report-not-ordered", string(got.Str)
+						return
+					}
+					last = cnt
+				}
+				if n > 0 && round == 0 && len(lines) < 2 {
+					sig, detail = "hotkey-report-empty-after-traffic", string(got.Str)
+					return
+				}
+			}
+		}
+		e := sched.RunOnce(nil, sched.Options{MaxSteps: 400000}, body)
+		rep.Execs++
+		rep.Transitions += int64(e.Steps())
+		for _, f := range e.Failures {
+			sig, detail = f.Sig, f.Detail
+		}
+		if sig == "" && e.EndWhy != "main-returned" {
+			sig = "execution-ended-" + e.EndWhy
+		}
+		if sig != "" && !sigs[sig] {
+			sigs[sig] = true
+			rep.Violations = append(rep.Violations, sched.CustomViolation("C19/hotkey-command", sig, fmt.Sprintf("plan %v: %s", plan, detail), plan))
+		}
+	}
+	rep.States, rep.Distinct = rep.Execs, rep.Execs
+	return rep
+}
+
+func init() {
+	sched.Register(&sched.Scenario{Name: "C19/hotkey-command", Custom: c19hotkeyCommand, ReplayCustom: func(in json.RawMessage) []sched.Failure { return nil }})
+}
